@@ -176,7 +176,8 @@ theorem under_ctx (t : Tree) (hwf : WFp t) (id : Id) : ∀ (fuel : Nat) (cur : I
     t.wins[cur]? = some w → w.isRoot = w.parent.isNone → (w.parent = none → w.rect.top = 0 ∧ w.rect.left = 0) →
     Ctx t k w.parent l c L C → Under t id fuel cur l c →
     ∃ (idw : Win) (l' c' : Int) (k' : Nat), t.wins[id]? = some idw ∧ idw.freed = false ∧ idw.isRoot = idw.parent.isNone ∧
-      idw.rect.memb l' c' = true ∧ k' + 1 ≤ k + fuel ∧ Ctx t k' idw.parent l' c' L C := by
+      idw.rect.memb l' c' = true ∧ k' + 1 ≤ k + fuel ∧ Ctx t k' idw.parent l' c' L C ∧
+      (idw.parent = none → idw.rect.top = 0 ∧ idw.rect.left = 0 ∧ cur = id) := by
   intro fuel
   induction fuel with
   | zero => intro cur l c k L C w _ _ _ _ hu; simp [Under] at hu
@@ -187,7 +188,7 @@ theorem under_ctx (t : Tree) (hwf : WFp t) (id : Id) : ∀ (fuel : Nat) (cur : I
     rw [hw] at hw2
     cases hw2
     rcases hcase with rfl | ⟨_, hv, ch, hch, hunder⟩
-    · exact ⟨w, l, c, k, hw, hf, hroot, hm, by omega, hctx⟩
+    · exact ⟨w, l, c, k, hw, hf, hroot, hm, by omega, hctx, fun hp => ⟨(hz hp).1, (hz hp).2, rfl⟩⟩
     · obtain ⟨cw, hcw, hcp, hcr⟩ := hwf.child cur w hw ch hch
       -- the context of the child: the cell in `cur`'s own coordinates is exposed through `cur`
       have hmm := (memb_true_iff _ _ _).1 hm
@@ -216,9 +217,16 @@ theorem under_ctx (t : Tree) (hwf : WFp t) (id : Id) : ∀ (fuel : Nat) (cur : I
             rw [e1, e2]
             exact hctx
       have hcroot : cw.isRoot = cw.parent.isNone := by rw [hcr, hcp]; rfl
-      obtain ⟨idw, l', c', k', h1, h2, h3, h4, h5, h6⟩ := ih ch _ _ (k + 1) L C cw hcw hcroot
+      obtain ⟨idw, l', c', k', h1, h2, h3, h4, h5, h6, h7⟩ := ih ch _ _ (k + 1) L C cw hcw hcroot
         (by intro hx; rw [hcp] at hx; cases hx) hctx' hunder
-      exact ⟨idw, l', c', k', h1, h2, h3, h4, by omega, h6⟩
+      refine ⟨idw, l', c', k', h1, h2, h3, h4, by omega, h6, fun hp => ?_⟩
+      -- a window without a parent cannot be reached through a child list
+      obtain ⟨_, _, hchid⟩ := h7 hp
+      subst hchid
+      rw [hcw] at h1
+      cases h1
+      rw [hcp] at hp
+      cases hp
 
 end WinFlush
 end Tickit
